@@ -257,9 +257,16 @@ func coqObs(r *Result) string {
 		switch x.Kind {
 		case "up.new":
 			res := x.Aux[:strings.Index(x.Aux, "@")]
+			if x.Code > 0 && x.K > 0 {
+				up = append(up, fmt.Sprintf("OLeak %s", CoqNat(x.K-1))) // an earlier attempt's stream was still open
+			}
 			up = append(up, fmt.Sprintf("OUpNew %s %s", CoqNat(x.K), coqPool[res]))
 		case "up.hdr":
-			up = append(up, fmt.Sprintf("OUpHdr %s %s", CoqNat(x.K), CoqBool(x.End)))
+			n := 1 // without a route action to observe, the headers are taken to be finalised once
+			if sp.RouteHeaderActions {
+				n = x.Code
+			}
+			up = append(up, fmt.Sprintf("OUpHdr %s %s %s", CoqNat(x.K), CoqBool(x.End), CoqNat(n)))
 		case "up.data":
 			up = append(up, fmt.Sprintf("OUpData %s %s", CoqNat(x.K), CoqBool(x.End)))
 		case "up.trl":
